@@ -171,7 +171,7 @@ class DecRun:
         for c in self.facts.items(F, "const"):
             e = c.get("e") or {}
             if e.get("k") == "lit" and e.get("t") == "int":
-                it.consts[c["name"]] = int(e["v"])
+                it.consts[c["name"]] = int(e["v"]) if getattr(self, "const_override", None) is None else self.const_override
         return it
 
     def call_fn(self, name, args):
@@ -235,8 +235,9 @@ class DecInterp(Interp):
     pass
 
 
-def run_decoder(facts, seq):
+def run_decoder(facts, seq, const_override=None):
     run = DecRun(facts, seq)
+    run.const_override = const_override
     model = run.model
 
     # subclass-free wiring: wrap on_call so that decoder.push / read_exact / vec![x; n] see evaluated arguments
@@ -347,9 +348,9 @@ def norm(v):
     return ("?", repr(v)[:60])
 
 
-def classify(facts, seq):
+def classify(facts, seq, const_override=None):
     try:
-        v, model = run_decoder(facts, seq)
+        v, model = run_decoder(facts, seq, const_override)
     except Unknown as e:
         return ("unknown", str(e)), None
     if isinstance(v, tuple) and v[0] == "Err":
@@ -424,6 +425,40 @@ def r_table(ctx):
         ctx.incomplete_msg(rid, "only %d sequences evaluated" % n)
     ctx.extra["alloc_from_wire_sites"] = {"%s@%d" % k: v for k, v in allocs.items()}
     return allocs
+
+
+def r_capfree(ctx):
+    rid = "C11.capfree"
+    ctx.rule(rid, "the decoded value does not depend on the integer constants of cbor_value.rs (the preallocation / chunk cap): with every such "
+                  "constant set to 1 the decoder's source yields the same result on every header sequence with containers or strings of two "
+                  "or more elements — a cap may bound an allocation, never the number of elements, pairs or bytes that are read (abstract "
+                  "evaluation under both constant values)", floor=100)
+    f = ctx.facts
+    fi = f.fn(F, "decode_value")
+    consts = [c["name"] for c in f.items(F, "const") if (c.get("e") or {}).get("k") == "lit" and (c.get("e") or {}).get("t") == "int"]
+    if not consts:
+        ctx.site(rid, "no integer constants", F, fi.line, None)
+    leaves = ["u5", "n5", "t2", "b2", "false"]
+    seqs = [("a2", x, y) for x in leaves for y in leaves] + [("m1", x, y) for x in leaves for y in leaves] + \
+           [("a2", "a2", "u5", "n5", "t2"), ("a*", "u5", "n5", "t2", "brk"), ("m*", "u5", "n5", "t2", "b2", "brk"), ("b*", "b2", "b2", "brk"),
+            ("t*", "t2", "t2", "brk"), ("a2", "b2", "t2"), ("tag", "a2", "u5", "u5"), ("a2", "u5"), ("m1", "u5"), ("a2", "m1", "u5", "u5", "u5")] + \
+           [("a2", x, "a2", y, z) for x in leaves for y in leaves[:3] for z in leaves[:3]]
+    seen = set()
+    for seq in seqs:
+        a, _ = classify(f, list(seq))
+        b, _ = classify(f, list(seq), const_override=1)
+        key = " ".join(seq)
+        if a[0] == "unknown" or b[0] == "unknown":
+            ctx.incomplete_msg(rid, "%s: %s" % (key, a[1] if a[0] == "unknown" else b[1]))
+            continue
+        ctx.site(rid, key, F, fi.line, None)
+        if a != b:
+            k = "%s-headed" % seq[0]
+            if k in seen:
+                continue
+            seen.add(k)
+            ctx.violation(rid, k, F, fi.line, "header sequence [%s]: the decoder source yields %s, but %s when the constants %s are 1: a cap "
+                          "limits what is read, so long containers are cut short" % (key, show(a), show(b), consts))
 
 
 def _same(a, b):
@@ -536,4 +571,5 @@ def run(ctx):
     ctx.guarded("C11.table", t)
     ctx.guarded("C11.simple", r_simple)
     ctx.guarded("C11.neg", r_neg)
+    ctx.guarded("C11.capfree", r_capfree)
     ctx.guarded("C11.alloc", lambda c: r_alloc(c, res.get("allocs") or {}))
